@@ -6,7 +6,7 @@
    panics and goroutine termination are runtime facts observed by the stress harness. *)
 From WG Require Import Base.Prelude Gen.Constants.
 From WG Require Import Lifecycle.Automaton Lifecycle.AutomatonProofs.
-From WG Require Lifecycle.Locks Lifecycle.LockProofs Lifecycle.Proofs.
+From WG Require Lifecycle.Locks Lifecycle.LockProofs Lifecycle.Proofs Lifecycle.Edges Lifecycle.EdgeProofs.
 Module L := Lifecycle.Locks.
 Module P := Lifecycle.Proofs.
 
@@ -76,6 +76,19 @@ Theorem C13_rank_respecting_programs_never_deadlock :
     L.all_ok rank trank ps = true -> forall sched, L.stuckb (L.run (L.init ps) sched) = false.
 Proof. exact LockProofs.rank_respecting_programs_never_deadlock. Qed.
 Print Assumptions C13_rank_respecting_programs_never_deadlock.
+
+(* the bridge to the source: a program set all of whose lock-order edges (held class -> acquired
+   class, joins included) lie in a set E of edges that climb the rank by at least 2 never
+   deadlocks.  On every run E is instantiated with the edges EXTRACTED from /repo's source minus
+   the listed inversions (Gen/LockEdges.v, theorem programs_within_code_edges_never_deadlock in
+   the generated out/C13/lockedges/LockEdgesRun.v). *)
+Theorem C13_programs_within_edges_never_deadlock :
+  forall (rank : nat -> nat) (ps : list (list L.instr)) (E : list (nat * nat)),
+    Edges.wf ps = true -> Edges.ranks_positive rank ps = true ->
+    Edges.edges_incl (Edges.all_edges ps) E = true -> Edges.edges_climb rank E = true ->
+    forall sched, L.stuckb (L.run (L.init ps) sched) = false.
+Proof. exact EdgeProofs.programs_within_edges_never_deadlock. Qed.
+Print Assumptions C13_programs_within_edges_never_deadlock.
 
 (* the device's operations and goroutines MINUS the listed inversions respect one order ... *)
 Theorem C13_device_locks_rank_ok : L.all_ok P.rank P.trank (P.device_programs false) = true.
